@@ -245,7 +245,10 @@ def gen_treasury(seed, n):
         if allowed and allowed[0]:
             lines.append("texec %d %s swapin %s %s:%d %d" % (t + 10, hx(c.users[2]), route_s(allowed[0]), hx(allowed[0][0][1]), 7, 1))
             lines.append("texec %d %s swapin %s %s:%d %d" % (t + 10, hx(trader), route_s(allowed[0]), hx(allowed[0][0][1]), 7, 1))
-        for name, ver in [("treasury", "0.4.19"), ("treasury", "0.4.20"), ("treasury", "0.4.21"), ("staking", "0.1.0"), ("treasury", "0.4"), ("treasury", "abc"), ("treasury", "0.3.99")]:
+        # versions with build metadata: the same release with metadata and a newer one (both must be refused; semver orders
+        # build metadata, so neither is "strictly older")
+        for name, ver in [("treasury", "0.4.19"), ("treasury", "0.4.20"), ("treasury", "0.4.21"), ("staking", "0.1.0"), ("treasury", "0.4"), ("treasury", "abc"), ("treasury", "0.3.99"),
+                          ("treasury", "0.4.20+hotfix.1"), ("treasury", "0.4.21+b1")]:
             lines.append("tmig %s %s" % (hx(name), hx(ver)))
     return "\n".join(lines) + "\n", {"histories": n}
 
